@@ -51,21 +51,31 @@ CONFIGS = {
     "customattr": ("/", "tag", None, False),
     "missingattr": ("/", "tag", None, True),
     "intvalues": ("|", "name", "int", False),
+    # user node classes with their own truth value / value semantics are nodes like any other
+    "falsy": ("/", "name", None, False),
+    "eqhash": ("/", "name", None, False),
 }
 _CLS = {}
 
 
-def node_class(sep):
+def node_class(sep, variant="plain"):
     import anytree
 
-    if sep not in _CLS:
-        _CLS[sep] = type("SepNode", (anytree.NodeMixin,), {"separator": sep})
-    return _CLS[sep]
+    if (sep, variant) not in _CLS:
+        d = {"separator": sep}
+        if variant == "falsy":
+            d["__len__"] = lambda self: 0
+        elif variant == "eqhash":
+            d["__eq__"] = lambda self, other: True
+            d["__ne__"] = lambda self, other: False
+            d["__hash__"] = lambda self: 5
+        _CLS[(sep, variant)] = type("SepNode_" + variant, (anytree.NodeMixin,), d)
+    return _CLS[(sep, variant)]
 
 
 def build(m, names, cfg):
     sep, attr, transform, missing = CONFIGS[cfg]
-    cls = node_class(sep)
+    cls = node_class(sep, cfg if cfg in ("falsy", "eqhash") else "plain")
     nodes = []
     strnames = []
     for i in range(m.n):
@@ -136,6 +146,8 @@ def check_tree(t, shape, names, cfg, maxcomp, only=None):
         t.obs((shape, names, cfg, start, t.c["evaluations"]))
     if only:
         return
+    if cfg == "default" and m.n >= 2:
+        rename_histories(t, m, nodes, list(strnames), sep, attr, idm, ctx)
     # round-trip theorems on sibling-unique ordinary names
     for ic in (False, True):
         fold = (lambda s: s.upper()) if ic else (lambda s: s)
@@ -166,6 +178,56 @@ def check_tree(t, shape, names, cfg, maxcomp, only=None):
     t.sample({"shape": shape, "names": list(names), "config": cfg, "paths": paths[:6] + paths[-3:]}, cap=1)
 
 
+def rename_histories(t, m, nodes, strnames, sep, attr, idm, ctx):
+    """One Resolver object used before and after a rename: the second answer must follow the new names."""
+    import anytree
+
+    paths = paths_for(strnames, sep, 2)
+    alphabet = sorted(set(strnames)) + ["zz"]
+    for ic, rx in ((False, False), (True, True)):
+        for i in range(m.n):
+            for newname in alphabet:
+                if newname == strnames[i]:
+                    continue
+                r = anytree.Resolver(attr, ignorecase=ic, relax=rx)
+                before = []
+                for start in range(m.n):
+                    for path in paths:
+                        before.append(_get(r, nodes[start], path, idm))
+                old = strnames[i]
+                setattr(nodes[i], attr, newname)
+                strnames[i] = newname
+                try:
+                    for start in range(m.n):
+                        for path in paths:
+                            exp = ref_get(m, strnames, start, path, sep, ic)
+                            want = (("none", None) if rx else exp) if exp[0] == "error" else exp
+                            got = _get(r, nodes[start], path, idm)
+                            t.c["evaluations"] += 1
+                            t.c["calls_after_rename"] += 1
+                            if got != want:
+                                t.violation("C07: get(%r) on a re-used Resolver after renaming node %d to %r: expected %s, observed %s" % (
+                                    path, i, newname, want, got),
+                                    dict(ctx, engine="E2", module=MOD, history="rename", renamed=[i, old, newname], start=start,
+                                         path=path, ignorecase=ic, relax=rx, expected=want, observed=got))
+                                return
+                finally:
+                    setattr(nodes[i], attr, old)
+                    strnames[i] = old
+
+
+def _get(r, node, path, idm):
+    import anytree
+
+    try:
+        res = r.get(node, path)
+        return ("node", idm(res)) if res is not None else ("none", None)
+    except anytree.ResolverError as exc:
+        return ("error", type(exc).__name__)
+    except Exception as exc:  # noqa
+        return ("crash", "%s: %s" % (type(exc).__name__, exc))
+
+
 def job(items):
     t = core.Tally()
     for shape, names, cfg, maxcomp in items:
@@ -180,7 +242,7 @@ def _tup(x):
 
 def replay(c):
     t = core.Tally()
-    only = (c["start"], c["path"], c["ignorecase"], c["relax"]) if "path" in c and "target" not in c else None
+    only = (c["start"], c["path"], c["ignorecase"], c["relax"]) if "path" in c and "target" not in c and "history" not in c else None
     check_tree(t, _tup(c["shape"]), tuple(c["names"]), c["config"], 3, only)
     return [v["why"] for v in t.violations]
 
@@ -191,6 +253,7 @@ def plan(tier):
         spec = [(1, 3, NAMES_FULL, "default", 3), (4, 4, NAMES_SMALL, "default", 2),
                 (1, 3, NAMES_SMALL, "semicolon", 2), (1, 3, NAMES_SMALL, "doublecolon", 2), (1, 3, NAMES_SMALL, "customattr", 2),
                 (1, 3, NAMES_SMALL, "missingattr", 2), (1, 3, NAMES_SMALL, "intvalues", 2),
+                (1, 3, NAMES_SMALL, "falsy", 2), (1, 3, NAMES_SMALL, "eqhash", 2),
                 (2, 3, ("a", "a;b", "b"), "semicolon", 3), (5, 5, ("a", "b"), "doublecolon", 2)]
     else:
         spec = [(1, 4, NAMES_FULL, "default", 3), (5, 5, NAMES_SMALL, "default", 2)] + \
@@ -214,13 +277,15 @@ def run(tier):
         "evaluations": t.c["evaluations"], "distinct_nontrivial": t.c["nontrivial"],
         "rule": "ordered trees x every name assignment over the alphabet (duplicates among siblings, case pairs, wildcard "
                 "characters, the other class's separator, '.') x start x every path of 1..3 components over {names, unknown, "
-                "'..', '.', ''} relative and absolute x ignorecase x relax x 6 separator/pathattr configurations, against a "
-                "reference step interpreter (exact node, exact error class, None when relaxed); round-trip theorems on "
+                "'..', '.', ''} relative and absolute x ignorecase x relax x 8 separator/pathattr/node-class configurations, against a "
+                "reference step interpreter (exact node, exact error class, None when relaxed); one Resolver object used before "
+                "and after every single rename of a node (re-use histories); round-trip theorems on "
                 "sibling-unique ordinary names; non-trivial = the path leads to another node than the start node",
         "bounds": {"trees": len(items), "tier": tier},
     }
     return {"tally": t, "coverage": cov,
-            "guards": ("nontrivial", "err:RootResolverError", "err:ChildResolverError", "err:ResolverError", "theorem_instances"),
+            "guards": ("nontrivial", "err:RootResolverError", "err:ChildResolverError", "err:ResolverError", "theorem_instances",
+                       "calls_after_rename"),
             "assumptions": ["ASCII case folding only (str.upper on the alphabet)",
                             "names '', '.', '..' and names containing the separator are unreachable by construction and excluded "
                             "from the round-trip theorems only"]}
